@@ -269,3 +269,8 @@ Proof. induction n; simpl; intros. { replace (c + 0) with c by lia. auto. }
   destruct l; simpl. { replace (c + 0) with c by lia. auto. }
   destruct H as (?&?&?). replace (c + N.pos (Pos.of_succ_nat (Nat.min n (length l)))) with (c + 1 + N.of_nat (Nat.min n (length l))) by lia.
   apply IHn. auto. Qed.
+
+Lemma lmax_from_le : forall l m b, m <= b -> (forall f, In f l -> s_max f <= b) -> lmax_from m l <= b.
+Proof. induction l; simpl; intros; auto. unfold lmax_from in *. simpl. apply IHl; auto.
+  assert (s_max a <= b) by auto. destruct (m <? s_max a); lia. Qed.
+
